@@ -34,104 +34,141 @@ def main(tier):
     prog = facts.load("dev", None)
     idx = rules.Index(prog)
     pnp = prog.fns.get(PP + "prepare_next_node_printing")
-    # (1) confinement
-    for key in (FMT_D, FMT_G):
-        f = prog.fns.get(key)
-        short = "Display" if "Display" in key else "Debug"
-        if not run.ob("confinement", "%s::fmt exists" % short, f is not None, key="confinement|%s::fmt missing" % short):
-            continue
-        calls = [(bi, t, rules.callee_name(t["callee"])) for bi, t in prog.calls(f)]
-        trav = [c for c in calls if c[2] == "crate::id::NodeId::traverse"]
-        ok = len(trav) == 1
-        run.ob("confinement", "%s::fmt constructs exactly one Traverse" % short, ok, key="confinement|%s::fmt does not construct exactly one traversal" % short, detail=[c[2] for c in calls if "traverse" in c[2].lower()], nontrivial=(short, "trav"))
-        if ok:
-            org = rules.origin(prog, f, trav[0][1]["args"][0])
-            run.ob("confinement", "%s::fmt: the traversal starts at *self.id" % short, any(o[0] == "arg" and o[1] == 1 and ".id" in o[2] for o in org) and not any(o[0] in ("call", "const") for o in org),
-                   key="confinement|%s::fmt: traversal does not start at self.id" % short, detail=sorted(map(str, org)), nontrivial=(short, "start"), sample=True)
-        ix = [c for c in calls if c[2] == INDEX]
-        for (bi, t, n) in ix:
-            org = rules.origin(prog, f, t["args"][1])
-            from_self = any(o[0] == "arg" and o[1] == 1 and ".id" in o[2] for o in org)
-            from_pnp = any(o[0] == "call" and o[1] in (PP + "prepare_next_node_printing", "<core::result::Result<T, E> as core::ops::try_trait::Try>::branch") for o in org)
-            other = [o for o in org if o[0] in ("const", "agg") or (o[0] == "call" and o[1] not in (PP + "prepare_next_node_printing", "<core::result::Result<T, E> as core::ops::try_trait::Try>::branch"))]
-            run.ob("confinement", "%s::fmt: printed node id comes from self.id or prepare_next_node_printing" % short, (from_self or from_pnp) and not other,
-                   key="confinement|%s::fmt prints a node whose id has another origin" % short, detail=sorted(map(str, org)), loc=prog.loc(t.get("span")), nontrivial=(short, "ix", from_self))
-        run.floor("%s::fmt node lookups" % short, len(ix), 2)
-        others = sorted({c[2] for c in calls if c[2].startswith("crate::id::NodeId::") and c[2] != "crate::id::NodeId::traverse"} |
-                        {c[2] for c in calls if c[2].startswith("crate::node::Node<T>::") and c[2] != "crate::node::Node<T>::get"})
-        run.ob("confinement", "%s::fmt walks no link itself" % short, not others, key="confinement|%s::fmt navigates links itself: %s" % (short, others), detail=others)
-    if run.ob("pairing", "prepare_next_node_printing exists", pnp is not None, key="pairing|prepare_next_node_printing missing"):
-        calls = [(bi, t, rules.callee_name(t["callee"])) for bi, t in prog.calls(pnp)]
-        nxt = [c for c in calls if c[2].endswith("Traverse<'_, T> as core::iter::traits::iterator::Iterator>::next")]
-        run.ob("pairing", "edges come from Traverse::next of the traverser argument only", len(nxt) == 1 and
-               any(o[0] == "arg" and o[1] == 2 for o in rules.origin(prog, pnp, nxt[0][1]["args"][0])), key="pairing|edges are not taken from the traverser argument", detail=[c[2] for c in calls], nontrivial="edges")
-        opens = [c for c in calls if c[2].endswith("IndentWriter<'a, 'b>::open_item")]
-        closes = [c for c in calls if c[2].endswith("IndentWriter<'a, 'b>::close_item")]
-        run.ob("pairing", "open_item called at exactly one site, close_item at exactly one site", len(opens) == 1 and len(closes) == 1,
-               key="pairing|open_item/close_item call sites: %d/%d" % (len(opens), len(closes)), nontrivial="sites", sample=True)
-        for nm in ("open_item", "close_item"):
-            callers = sorted({k for (k, bi, t) in idx.callers.get(PP + "IndentWriter<'a, 'b>::" + nm, [])})
-            run.ob("pairing", "%s is called only from prepare_next_node_printing" % nm, callers == [PP + "prepare_next_node_printing"], key="pairing|%s also called from %s" % (nm, callers), detail=callers, nontrivial=("callers", nm))
-        # the switch on the edge discriminant: Start arm dominates open_item, End arm dominates close_item
-        cfg = CFG(pnp["mir"])
-        sw = [(bi, t) for bi, t in prog.terms(pnp) if t["k"] == "switch" and prog.ty(t["ty"])["k"] == "int" and len(t["arms"]) >= 1]
-        arms = None
-        for bi, t in sw:
-            # find the discriminant read of a NodeEdge place feeding this switch
-            for bj, sj, s in prog.stmts(pnp):
-                if bj == bi and s["k"] == "assign" and s["rv"]["k"] == "discr" and prog.ty(s["rv"]["ty"]).get("path") == "crate::traverse::NodeEdge":
-                    names = {v: n for n, v in s["rv"]["variants"]}
-                    arms = {names.get(v): tgt for v, tgt in t["arms"]}
-                    for n in names.values():
-                        arms.setdefault(n, t["otherwise"])
-        if run.ob("pairing", "the Start/End dispatch of prepare_next_node_printing is found", arms is not None and "Start" in arms and "End" in arms, key="pairing|no match on the edge kind"):
-            if opens and closes:
-                ob, cb = opens[0][0], closes[0][0]
-                run.ob("pairing", "open_item is on the Start arm only", cfg.dominates(arms["Start"], ob) and not cfg.dominates(arms["End"], ob) and ob not in _reach_wo(cfg, arms["End"], arms["Start"]),
-                       key="pairing|open_item is not confined to the Start arm", nontrivial="open-arm")
-                run.ob("pairing", "close_item is on the End arm only", cfg.dominates(arms["End"], cb) and cb not in _reach_wo(cfg, arms["Start"], arms["End"]),
-                       key="pairing|close_item is not confined to the End arm", nontrivial="close-arm")
-                # returned id = payload of the Start edge; same id used for the last-sibling test
-                ret = rules.origin(prog, pnp, {"k": "copy", "place": {"l": 0, "p": []}})
-                ids = [o for o in ret if o[0] == "agg"]
-                run.ob("pairing", "returns Some(id)/None built in place", bool(ids), key="pairing|return value is not built from the edge", detail=sorted(map(str, ret)))
-                # (3) last-sibling flag
-                org = rules.origin(prog, pnp, opens[0][1]["args"][1])
-                ok3 = any(o[0] == "call" and o[1] == "core::option::Option::<T>::is_none" for o in org)
-                run.ob("last-sibling", "open_item's flag is an Option::is_none()", ok3, key="last-sibling|open_item flag is not `...is_none()`", detail=sorted(map(str, org)), nontrivial="flag1")
-                isn = [c for c in calls if c[2] == "core::option::Option::<T>::is_none"]
-                ns = [c for c in calls if c[2] == "crate::node::Node<T>::next_sibling"]
-                other_links = [c[2] for c in calls if c[2].startswith("crate::node::Node<T>::") and c[2] != "crate::node::Node<T>::next_sibling"]
-                ok3b = len(isn) == 1 and len(ns) == 1 and not other_links and any(o[0] == "call" and o[1] == "crate::node::Node<T>::next_sibling" for o in rules.origin(prog, pnp, isn[0][1]["args"][0]))
-                run.ob("last-sibling", "the flag is next_sibling().is_none() (no other link is read)", ok3b, key="last-sibling|open_item flag is not next_sibling().is_none()", detail=[c[2] for c in calls], nontrivial="flag2", sample=True)
-                if ns:
-                    o2 = rules.origin(prog, pnp, ns[0][1]["args"][0])
-                    ixs = [c for c in calls if c[2] == INDEX]
-                    same = len(ixs) == 1 and any(o[0] == "call" and o[1] == INDEX for o in o2)
-                    run.ob("last-sibling", "next_sibling is read from the node being opened (arena[id])", same, key="last-sibling|flag is computed from another node", detail=sorted(map(str, o2)), nontrivial="flag3")
-    # (4) guide-string tables via E2
-    data = e2props.load(run, ["dev"], ["ppconst"])
-    for (prof, entry), recs in data.items():
-        for r in recs:
-            tag = "(last=%s, first=%s)" % (r["is_last_item"], r["is_first_line"])
-            strs = all(isinstance(r.get(k), str) for k in ("as_str", "as_str_leading", "as_str_trailing_spaces")) and isinstance(r.get("is_all_whitespace"), bool)
-            if not run.ob("tables", "guide strings for %s are constants" % tag, strs, key="tables|guide strings for %s are not constant tables" % tag, detail=r):
-                continue
-            run.ob("tables", "%s: as_str = leading ++ trailing" % tag, r["as_str"] == r["as_str_leading"] + r["as_str_trailing_spaces"], key="tables|as_str != as_str_leading ++ as_str_trailing_spaces for %s" % tag, detail=r, nontrivial=("concat", tag), sample=True)
-            run.ob("tables", "%s: every guide is 4 columns wide" % tag, len(r["as_str"]) == 4, key="tables|guide for %s is not 4 columns" % tag, detail=r, nontrivial=("w", tag))
-            run.ob("tables", "%s: is_all_whitespace <=> as_str is blank" % tag, r["is_all_whitespace"] == (r["as_str"].strip() == ""), key="tables|is_all_whitespace wrong for %s" % tag, detail=r, nontrivial=("ws", tag))
-            want = {(False, True): "|-- ", (False, False): "|   ", (True, True): "`-- ", (True, False): "    "}[(r["is_last_item"], r["is_first_line"])]
-            run.ob("tables", "%s: guide is %r as documented" % (tag, want), r["as_str"] == want, key="tables|guide for %s is %r, documented %r" % (tag, r["as_str"], want), detail=r, nontrivial=("doc", tag))
-        run.floor("guide-string rows", len(recs), 4)
-    cpi = prog.fns.get(PP + "IndentWriter<'a, 'b>::complete_partial_indent")
-    if cpi is not None:
-        lits = [rules.origin(prog, cpi, t["args"][1]) for _, t in prog.calls(cpi) if rules.callee_name(t["callee"]).endswith("Formatter::<'a>::write_str")]
-        consts = sorted({o[1] for org in lits for o in org if o[0] == "const" and isinstance(o[1], str)})
-        run.ob("tables", "complete_partial_indent pads pending levels with the blank guide: %s" % consts, consts == ["    "], key="tables|pending-level padding literal is %s" % consts, detail=consts, nontrivial="pad")
-    # (6) the indent writer as a transducer: every step from every abstract pre-state of the invariant compared with the reference transducer (vlib/absint/ppstep.py)
+    # (7) the driver as step tables (vlib/absint/ppdriver.py): what the fmt bodies and the edge-dispatch function do with the traversal.  When this analysis
+    # decides every step, it subsumes the structural clauses (1)-(3) below (which are shaped after today's division of labour between fmt and the dispatch
+    # function and are used only as a fall-back).
     profiles = ["dev"] if tier == "quick" else ["dev", "rel"]
     sdata = e2props.load(run, profiles, ["ppstep"])
+    DRIVER = ("dispatch", "dispatch-flag", "fmt")
+    driver_decided = True
     for (prof, entry), recs in sorted(sdata.items()):
+        drv = [r for r in recs if r.get("step") in DRIVER or r.get("step") == "driver-setup"]
+        if not [r for r in drv if r.get("step") == "driver-setup" and r.get("exit") == "return"] or [r for r in drv if r.get("exit") == "undecided"]:
+            driver_decided = False
+            why_ = sorted({(r.get("msg") or "")[:160] for r in drv if r.get("exit") == "undecided"}) or ["driver analysis did not run"]
+            run.extra.setdefault("undecided_clauses", []).append({"clause": "driver", "profile": prof, "reasons": why_})
+            print("NOTE: C14 clause (7) (driver step tables, %s) is undecided on this tree: %s - falling back to the structural clauses (1)-(3)" % (prof, why_[:2]))
+        for r in drv:
+            if r.get("ok") is False:
+                why = re.sub(r"\bn\d+\b", "n_", (r.get("why") or ["differs from the reference"])[0])
+                run.ob("driver", "%s/%s (%s): as the reference driver" % (r["step"], prof, r.get("edge") or r.get("trait") or ""), False,
+                       key="driver|%s|%s" % (r["step"], why[:160]), detail=r, nontrivial=("driver", r["step"], r.get("edge"), r.get("trait")))
+            elif r.get("exit") == "panic":
+                run.ob("driver", "%s/%s does not panic" % (r["step"], prof), False, key="driver|%s|may panic: %s" % (r["step"], e2props.panic_kind(r.get("msg"))), detail=r)
+            elif r.get("ok") is True and driver_decided:
+                run.ob("driver", "%s/%s (%s, %s): as the reference driver" % (r["step"], prof, r.get("edge") or r.get("trait") or "", r.get("stack") or r.get("dispatch_says") or ""), True,
+                       nontrivial=("driver", r["step"], r.get("edge"), r.get("trait"), r.get("stack"), r.get("alternate"), r.get("dispatch_says"), r.get("next_sibling_none")),
+                       sample=(r.get("step") == "dispatch" and r.get("edge") == "Start(c)" and r.get("stack") == "nonempty" and r.get("next_sibling_none") is True))
+        if driver_decided:
+            run.floor("driver step cases (%s)" % prof, len([r for r in drv if r.get("ok") is True]), 30)
+    if not driver_decided:
+        # (1) confinement
+        for key in (FMT_D, FMT_G):
+            f = prog.fns.get(key)
+            short = "Display" if "Display" in key else "Debug"
+            if not run.ob("confinement", "%s::fmt exists" % short, f is not None, key="confinement|%s::fmt missing" % short):
+                continue
+            calls = [(bi, t, rules.callee_name(t["callee"])) for bi, t in prog.calls(f)]
+            trav = [c for c in calls if c[2] == "crate::id::NodeId::traverse"]
+            ok = len(trav) == 1
+            run.ob("confinement", "%s::fmt constructs exactly one Traverse" % short, ok, key="confinement|%s::fmt does not construct exactly one traversal" % short, detail=[c[2] for c in calls if "traverse" in c[2].lower()], nontrivial=(short, "trav"))
+            if ok:
+                org = rules.origin(prog, f, trav[0][1]["args"][0])
+                run.ob("confinement", "%s::fmt: the traversal starts at *self.id" % short, any(o[0] == "arg" and o[1] == 1 and ".id" in o[2] for o in org) and not any(o[0] in ("call", "const") for o in org),
+                       key="confinement|%s::fmt: traversal does not start at self.id" % short, detail=sorted(map(str, org)), nontrivial=(short, "start"), sample=True)
+            ix = [c for c in calls if c[2] == INDEX]
+            for (bi, t, n) in ix:
+                org = rules.origin(prog, f, t["args"][1])
+                from_self = any(o[0] == "arg" and o[1] == 1 and ".id" in o[2] for o in org)
+                from_pnp = any(o[0] == "call" and o[1] in (PP + "prepare_next_node_printing", "<core::result::Result<T, E> as core::ops::try_trait::Try>::branch") for o in org)
+                other = [o for o in org if o[0] in ("const", "agg") or (o[0] == "call" and o[1] not in (PP + "prepare_next_node_printing", "<core::result::Result<T, E> as core::ops::try_trait::Try>::branch"))]
+                run.ob("confinement", "%s::fmt: printed node id comes from self.id or prepare_next_node_printing" % short, (from_self or from_pnp) and not other,
+                       key="confinement|%s::fmt prints a node whose id has another origin" % short, detail=sorted(map(str, org)), loc=prog.loc(t.get("span")), nontrivial=(short, "ix", from_self))
+            run.floor("%s::fmt node lookups" % short, len(ix), 2)
+            others = sorted({c[2] for c in calls if c[2].startswith("crate::id::NodeId::") and c[2] != "crate::id::NodeId::traverse"} |
+                            {c[2] for c in calls if c[2].startswith("crate::node::Node<T>::") and c[2] != "crate::node::Node<T>::get"})
+            run.ob("confinement", "%s::fmt walks no link itself" % short, not others, key="confinement|%s::fmt navigates links itself: %s" % (short, others), detail=others)
+        if run.ob("pairing", "prepare_next_node_printing exists", pnp is not None, key="pairing|prepare_next_node_printing missing"):
+            calls = [(bi, t, rules.callee_name(t["callee"])) for bi, t in prog.calls(pnp)]
+            nxt = [c for c in calls if c[2].endswith("Traverse<'_, T> as core::iter::traits::iterator::Iterator>::next")]
+            run.ob("pairing", "edges come from Traverse::next of the traverser argument only", len(nxt) == 1 and
+                   any(o[0] == "arg" and o[1] == 2 for o in rules.origin(prog, pnp, nxt[0][1]["args"][0])), key="pairing|edges are not taken from the traverser argument", detail=[c[2] for c in calls], nontrivial="edges")
+            opens = [c for c in calls if c[2].endswith("IndentWriter<'a, 'b>::open_item")]
+            closes = [c for c in calls if c[2].endswith("IndentWriter<'a, 'b>::close_item")]
+            run.ob("pairing", "open_item called at exactly one site, close_item at exactly one site", len(opens) == 1 and len(closes) == 1,
+                   key="pairing|open_item/close_item call sites: %d/%d" % (len(opens), len(closes)), nontrivial="sites", sample=True)
+            for nm in ("open_item", "close_item"):
+                callers = sorted({k for (k, bi, t) in idx.callers.get(PP + "IndentWriter<'a, 'b>::" + nm, [])})
+                run.ob("pairing", "%s is called only from prepare_next_node_printing" % nm, callers == [PP + "prepare_next_node_printing"], key="pairing|%s also called from %s" % (nm, callers), detail=callers, nontrivial=("callers", nm))
+            # the switch on the edge discriminant: Start arm dominates open_item, End arm dominates close_item
+            cfg = CFG(pnp["mir"])
+            sw = [(bi, t) for bi, t in prog.terms(pnp) if t["k"] == "switch" and prog.ty(t["ty"])["k"] == "int" and len(t["arms"]) >= 1]
+            arms = None
+            for bi, t in sw:
+                # find the discriminant read of a NodeEdge place feeding this switch
+                for bj, sj, s in prog.stmts(pnp):
+                    if bj == bi and s["k"] == "assign" and s["rv"]["k"] == "discr" and prog.ty(s["rv"]["ty"]).get("path") == "crate::traverse::NodeEdge":
+                        names = {v: n for n, v in s["rv"]["variants"]}
+                        arms = {names.get(v): tgt for v, tgt in t["arms"]}
+                        for n in names.values():
+                            arms.setdefault(n, t["otherwise"])
+            if run.ob("pairing", "the Start/End dispatch of prepare_next_node_printing is found", arms is not None and "Start" in arms and "End" in arms, key="pairing|no match on the edge kind"):
+                if opens and closes:
+                    ob, cb = opens[0][0], closes[0][0]
+                    run.ob("pairing", "open_item is on the Start arm only", cfg.dominates(arms["Start"], ob) and not cfg.dominates(arms["End"], ob) and ob not in _reach_wo(cfg, arms["End"], arms["Start"]),
+                           key="pairing|open_item is not confined to the Start arm", nontrivial="open-arm")
+                    run.ob("pairing", "close_item is on the End arm only", cfg.dominates(arms["End"], cb) and cb not in _reach_wo(cfg, arms["Start"], arms["End"]),
+                           key="pairing|close_item is not confined to the End arm", nontrivial="close-arm")
+                    # returned id = payload of the Start edge; same id used for the last-sibling test
+                    ret = rules.origin(prog, pnp, {"k": "copy", "place": {"l": 0, "p": []}})
+                    ids = [o for o in ret if o[0] == "agg"]
+                    run.ob("pairing", "returns Some(id)/None built in place", bool(ids), key="pairing|return value is not built from the edge", detail=sorted(map(str, ret)))
+                    # (3) last-sibling flag
+                    org = rules.origin(prog, pnp, opens[0][1]["args"][1])
+                    ok3 = any(o[0] == "call" and o[1] == "core::option::Option::<T>::is_none" for o in org)
+                    run.ob("last-sibling", "open_item's flag is an Option::is_none()", ok3, key="last-sibling|open_item flag is not `...is_none()`", detail=sorted(map(str, org)), nontrivial="flag1")
+                    isn = [c for c in calls if c[2] == "core::option::Option::<T>::is_none"]
+                    ns = [c for c in calls if c[2] == "crate::node::Node<T>::next_sibling"]
+                    other_links = [c[2] for c in calls if c[2].startswith("crate::node::Node<T>::") and c[2] != "crate::node::Node<T>::next_sibling"]
+                    ok3b = len(isn) == 1 and len(ns) == 1 and not other_links and any(o[0] == "call" and o[1] == "crate::node::Node<T>::next_sibling" for o in rules.origin(prog, pnp, isn[0][1]["args"][0]))
+                    run.ob("last-sibling", "the flag is next_sibling().is_none() (no other link is read)", ok3b, key="last-sibling|open_item flag is not next_sibling().is_none()", detail=[c[2] for c in calls], nontrivial="flag2", sample=True)
+                    if ns:
+                        o2 = rules.origin(prog, pnp, ns[0][1]["args"][0])
+                        ixs = [c for c in calls if c[2] == INDEX]
+                        same = len(ixs) == 1 and any(o[0] == "call" and o[1] == INDEX for o in o2)
+                        run.ob("last-sibling", "next_sibling is read from the node being opened (arena[id])", same, key="last-sibling|flag is computed from another node", detail=sorted(map(str, o2)), nontrivial="flag3")
+    # clause (6) decides the rendering of every indent entry semantically; the table clause (4) below reads the guide-string helpers by today's private names
+    # and is used only when (6) gives no verdict
+    steps_decided = all(not [r for r in recs if r.get("step") not in DRIVER and r.get("step") != "driver-setup" and r.get("exit") == "undecided"]
+                        and [r for r in recs if r.get("step") == "setup" and r.get("exit") == "return" and not r["found"].get("other_write_items")]
+                        for recs in sdata.values()) and bool(sdata)
+    if not steps_decided:
+      try:
+          # (4) guide-string tables via E2
+          data = e2props.load(run, ["dev"], ["ppconst"])
+          for (prof, entry), recs in data.items():
+              for r in recs:
+                  tag = "(last=%s, first=%s)" % (r["is_last_item"], r["is_first_line"])
+                  strs = all(isinstance(r.get(k), str) for k in ("as_str", "as_str_leading", "as_str_trailing_spaces")) and isinstance(r.get("is_all_whitespace"), bool)
+                  if not run.ob("tables", "guide strings for %s are constants" % tag, strs, key="tables|guide strings for %s are not constant tables" % tag, detail=r):
+                      continue
+                  run.ob("tables", "%s: as_str = leading ++ trailing" % tag, r["as_str"] == r["as_str_leading"] + r["as_str_trailing_spaces"], key="tables|as_str != as_str_leading ++ as_str_trailing_spaces for %s" % tag, detail=r, nontrivial=("concat", tag), sample=True)
+                  run.ob("tables", "%s: every guide is 4 columns wide" % tag, len(r["as_str"]) == 4, key="tables|guide for %s is not 4 columns" % tag, detail=r, nontrivial=("w", tag))
+                  run.ob("tables", "%s: is_all_whitespace <=> as_str is blank" % tag, r["is_all_whitespace"] == (r["as_str"].strip() == ""), key="tables|is_all_whitespace wrong for %s" % tag, detail=r, nontrivial=("ws", tag))
+                  want = {(False, True): "|-- ", (False, False): "|   ", (True, True): "`-- ", (True, False): "    "}[(r["is_last_item"], r["is_first_line"])]
+                  run.ob("tables", "%s: guide is %r as documented" % (tag, want), r["as_str"] == want, key="tables|guide for %s is %r, documented %r" % (tag, r["as_str"], want), detail=r, nontrivial=("doc", tag))
+              run.floor("guide-string rows", len(recs), 4)
+          cpi = prog.fns.get(PP + "IndentWriter<'a, 'b>::complete_partial_indent")
+          if cpi is not None:
+              lits = [rules.origin(prog, cpi, t["args"][1]) for _, t in prog.calls(cpi) if rules.callee_name(t["callee"]).endswith("Formatter::<'a>::write_str")]
+              consts = sorted({o[1] for org in lits for o in org if o[0] == "const" and isinstance(o[1], str)})
+              run.ob("tables", "complete_partial_indent pads pending levels with the blank guide: %s" % consts, consts == ["    "], key="tables|pending-level padding literal is %s" % consts, detail=consts, nontrivial="pad")
+      except (KeyError, TypeError) as e:
+        run.extra.setdefault("undecided_clauses", []).append({"clause": "tables", "reasons": ["guide-string helpers not found under their expected names (%s)" % e]})
+        print("NOTE: C14 clause (4) (guide-string tables) is undecided on this tree: helper or field names differ (%s)" % e)
+    # (6) the indent writer as a transducer: every step from every abstract pre-state of the invariant compared with the reference transducer (vlib/absint/ppstep.py)
+    for (prof, entry), recs in sorted(sdata.items()):
+        recs = [r for r in recs if r.get("step") not in DRIVER and r.get("step") != "driver-setup"]
         und = [r for r in recs if r.get("exit") == "undecided"]
         bad = [r for r in recs if r.get("ok") is False]
         pan = [r for r in recs if r.get("exit") == "panic"]
